@@ -15,14 +15,18 @@ RULE = ("generated single-cell files: 1-8 cells with pairwise different matrices
         "info) == its own PixelDict, bins/{chrom,start,end} of every cell share the HDF5 object address of the root's, "
         "per-cell extra columns equal that cell's, schema validator on every cell. Non-trivial: >=2 cells with different "
         "non-empty matrices; distinct = (bins, cells, options)")
-ASSUMPTIONS = ["cell names are non-empty printable ASCII without '/' and not '.'/'..', pairwise distinct",
+ASSUMPTIONS = ["cell names are non-empty printable ASCII, not '.'/'..', pairwise distinct; a key containing '/' is a file "
+               "path and names the cell after its last component (create_scool's own rule)",
+               "append histories (mode='a') are checked for listing, recognition and read-back only - the shared-bin-table "
+               "clause is stated for one creation",
                "pixel tables are given sorted by (bin1_id, bin2_id) as create_scool documents (its ordered=False flag "
                "is accepted but does no sorting - see DESIGN observations)"]
 MIN_NONTRIVIAL = {"quick": 80, "thorough": 800}
 REQUIRED_PROBES = ["create_exit"]
 REQUIRED_FEATURES = ["bins:common", "bins:per-cell", "cells:has-empty", "cells:1", "mode:symm", "mode:square",
                      "create:ordered", "create:ordered-false-flag", "names:natsort-trap", "dtypes:count-float",
-                     "columns:extra", "bins:common-with-extra-column"]
+                     "columns:extra", "bins:common-with-extra-column", "keys:multi-component-path", "keys:one-slash-path",
+                     "history:append-replaces-a-cell", "history:append-new-cells-only"]
 
 CELL_NAMES = ["c2", "c10", "c1", "cell_A.1", "GSM123-rep.2", "10", "2", "sample 3", "Cell", "cell", "x.y.z", "a-b_c",
               "c02", "c010"]
@@ -94,15 +98,21 @@ def one_file(ctx, cid, rng, idx):
         b = bins.copy()
         b.insert(int([0, 2, 3][int(rng.integers(3))]), "cov", common_extra)
         bins_arg = b
+    # dictionary keys as a caller has them: plain names, or file paths (the cell is named after the last component)
+    keystyle = int(rng.integers(5))
+    prefix = {0: "", 1: "", 2: "batch1/", 3: "plate7/run2/", 4: "/data/sc/run.3/"}[keystyle]
+    keyof = {nm: prefix + nm for nm in names}
+    if per_cell_bins:
+        bins_arg = {keyof[nm]: b for nm, b in bins_arg.items()}
     pix_arg = {}
     for nm, P in cells.items():
         df = gen.pixels_frame(P, {"score": scores[nm]} if extra_col else None,
                               count_dtype=np.float64 if float_counts else None)
         if ordered:
-            pix_arg[nm] = df if rng.random() < 0.5 else iter(gen.chunk_frames(df, gen.random_cuts(rng, len(df), 4)))
+            pix_arg[keyof[nm]] = df if rng.random() < 0.5 else iter(gen.chunk_frames(df, gen.random_cuts(rng, len(df), 4)))
         else:
             # create_scool documents sorted pixel tables; ordered=False must not change the result
-            pix_arg[nm] = df if rng.random() < 0.5 else iter(gen.chunk_frames(df, gen.random_cuts(rng, len(df), 3)))
+            pix_arg[keyof[nm]] = df if rng.random() < 0.5 else iter(gen.chunk_frames(df, gen.random_cuts(rng, len(df), 3)))
     path = ctx.path(suffix=".scool")
     desc = {"bt": bt, "symm": symm, "cells": {nm: sorted((a, b, v) for (a, b), v in P.items())[:40] for nm, P in cells.items()},
             "per_cell_bins": per_cell_bins, "ordered": ordered}
@@ -112,6 +122,7 @@ def one_file(ctx, cid, rng, idx):
                   f"family:{fam}")
         if any(not P for P in cells.values()):
             c.feature("cells:has-empty")
+        c.feature({"": "keys:plain-names", "batch1/": "keys:one-slash-path"}.get(prefix, "keys:multi-component-path"))
         if {"c2", "c10"} <= set(names) or {"2", "10"} <= set(names) or {"c02", "c010"} <= set(names):
             c.feature("names:natsort-trap")
         kw = dict(symmetric_upper=symm, ordered=ordered)
@@ -179,6 +190,36 @@ def one_file(ctx, cid, rng, idx):
                     "cell-bins-differ", f"cell {nm}: bin table differs from the common one")
             c.check(clr.info["nnz"] == len(P) and clr.info["sum"] == sum(P.values()), "cell-info-differs",
                     f"cell {nm}: nnz/sum differ")
+        # history: further batches appended with mode="a" (new cells, and one earlier cell replaced)
+        if idx % 3 == 0 and not c.failed:
+            spare = [x for x in CELL_NAMES if x not in names]
+            newnames = [spare[int(x)] for x in rng.permutation(len(spare))[: int(rng.integers(1, 3))]]
+            batch = {}
+            for k, nm in enumerate(newnames + ([names[0]] if rng.random() < 0.5 else [])):
+                P = gen.gen_pixels(rng, n, symm, [None, "dense", "sparse30"][int(rng.integers(3))])
+                P = {kk: v + 50 + k + (0.5 if float_counts else 0) for kk, v in P.items()}
+                batch[nm] = P
+                scores[nm] = {kk: float(int(rng.integers(-40, 40))) / 8.0 for kk in P}
+            pix2 = {nm: gen.pixels_frame(P, {"score": scores[nm]} if extra_col else None,
+                                         count_dtype=np.float64 if float_counts else None) for nm, P in batch.items()}
+            cooler.create_scool(path, bins, pix2, mode="a", **kw)
+            cells_all = dict(cells)
+            cells_all.update(batch)
+            c.feature("history:append-batch(mode=a)", "history:append-replaces-a-cell" if names[0] in batch
+                      else "history:append-new-cells-only")
+            listing = cooler.fileops.list_scool_cells(path)
+            c.check(sorted(listing) == sorted(f"/cells/{nm}" for nm in cells_all), "cell-listing-differs:after-append",
+                    f"after a second create_scool(mode='a') with cells {sorted(batch)}: list_scool_cells = {sorted(listing)}, "
+                    f"the file was given {sorted(cells_all)}")
+            c.check(cooler.fileops.is_scool_file(path), "not-recognised-as-scool:after-append", "is_scool_file is False")
+            for nm, P in cells_all.items():
+                if f"/cells/{nm}" not in listing:
+                    continue
+                pt = cooler.Cooler(f"{path}::/cells/{nm}").pixels()[:]
+                got = dict(zip(zip(pt["bin1_id"].tolist(), pt["bin2_id"].tolist()), pt["count"].tolist()))
+                c.check(got == P and list(got) == sorted(P), "cell-pixels-differ:after-append",
+                        f"cell {nm} does not read back as the pixel table given for it after an append",
+                        lambda: {"got": sorted(got.items())[:20], "want": sorted(P.items())[:20]})
         nonempty = [repr(sorted(P.items())) for P in cells.values() if P]
         if len(set(nonempty)) >= 2:
             c.nontrivial(repr(bt), repr(desc["cells"]), per_cell_bins, ordered, symm)
